@@ -6,7 +6,7 @@ PROPS = ["C08", "C09", "C10"]
 C08 = ["RelTwice", "RelWhileHeld", "RelUntold", "RelExposed", "ExposedAfterRel", "Leak"]
 C09 = ["Overlap", "NotResolved", "StaleKept", "BadDelivery", "Panic", "ApiBlocked"]
 C10 = ["HeldRel", "RelCbTwice", "RelCbMissing", "AccessWrongVal", "AccessNotCancelled", "AccessIdle",
-       "AccessStaleResult", "AccessBadResult", "SpuriousCancel", "WaitBadValue", "WaitBadResult", "WaitStuck"]
+       "AccessStaleResult", "AccessBadResult", "AccessCancelLost", "SpuriousCancel", "WaitBadValue", "WaitBadResult", "WaitStuck"]
 PROPERTY_OF = dict([(n, "C08") for n in C08] + [(n, "C09") for n in C09] + [(n, "C10") for n in C10])
 
 LABEL_RULES = [
